@@ -22,7 +22,7 @@ func init() {
 			"C04.exact: the reading side is exact near 2^64 — newSize as a decision table with the product checked through the high word of bits.Mul64 (C08's rules under this property). C04.quote: the string form is exactly '\"' + text + '\"' (the shift-by-one copy idiom is checked piece by piece). " +
 			"C04.vocab: Shorten evaluated abstractly (as C13.shorten) returns (s >> 10k, k-th binary unit) and unitToValues maps that unit to 2^(10k), so value × multiplier rebuilds what Shorten split. " +
 			"C04.keys: the reader switches on the marshal key constants after strings.ToLower, and the constants are lower-case. " +
-			"C04.sep: the text parser's scanning loop as a transfer table over a partition of all rune values × (nothing kept yet / something kept), by abstract interpretation of the loop body: space is skipped everywhere, '_' and no-break space only after the first digit, digits are kept, every other rune ends the number — so what the pretty formatter emits (\" \") is skipped before and between digits and before the unit; units are letters only, so the hand-made quoting needs no escaping. C04.limit: MaxInputLength admits the longest emitted form.",
+			"C04.sep: the text parser's scanning loop as a transfer table over a partition of all rune values × (nothing kept yet / something kept), by abstract interpretation of the loop body: space is skipped everywhere, '_' and no-break space only after the first digit, digits are kept, every other rune ends the number — so what the pretty formatter emits (\" \") is skipped before and between digits and before the unit; units are letters only, so the hand-made quoting needs no escaping. C04.limit: MaxInputLength admits the longest emitted form. C04.render: String / PrettyString are the formatter's bytes converted, nothing inserted or replaced afterwards (C13.methods under this property).",
 		NotDecided:  []string{"the arithmetic composition for all 2^64 values (digit grouping composed with ParseUint of the regrouped digits)", "nested encoding/json behaviour (stdlib)"},
 		Assumptions: []string{"strconv.AppendUint/FormatUint print canonical decimal; ParseUint inverts them"},
 		Technique:   "decision-table extraction + constant/table agreement + SSA idiom rules",
@@ -66,6 +66,9 @@ func runC04(e *Env) {
 	e.S.Floor("C04.vocab", 15)
 	e.S.Floor("C04.keys", 4)
 	e.S.Floor("C04.sep", 3)
+	// "the plain and pretty string renderings": String / PrettyString are the formatter's bytes, nothing added (C13.methods)
+	e.As(map[string]string{"C13.methods": "C04.render"}, func() { ruleC13Methods(e) })
+	e.S.Floor("C04.render", 7)
 }
 
 // segs flattens an abstract byte-sequence value built by append / strconv.AppendUint into readable segments.
